@@ -1,5 +1,6 @@
 import MlModel.Lemmas.Rates
 import MlModel.Lemmas.ConfusionTopK
+import MlModel.Lemmas.ConfusionSamplewise
 /-!
 # C07 (classification family) — metric values equal their textbook definitions
 
@@ -616,5 +617,62 @@ example :
   rfl
 
 end topk
+
+/-! ## D. averaging: macro = mean over classes, samples = mean over examples -/
+
+section averaging
+open MlModel.Agg.Confusion
+
+/-- **macro**: on per-class count arrays (one entry per class `x ∈ classes`) `derive_metric` returns
+the arithmetic mean over the classes of the rate of each class's own confusion matrix
+(`nan` for zero classes, as `np.mean` of an empty array) -/
+theorem C07_classification_macro_mean {α : Type} (sqrt : Rat → Rat) (classes : List α)
+    (tp tn fp fn : α → Int) (m : Metric) (f : CM Rat → Rat) (hf : derive sqrt m = .rate f) :
+    deriveMetric sqrt { tp := .v (classes.map tp), tn := .v (classes.map tn), fp := .v (classes.map fp),
+                        fn := .v (classes.map fn) } m (some "macro")
+      = .ok (.val (.s (meanList (classes.map fun x =>
+          f { tp := (tp x : Rat), tn := (tn x : Rat), fp := (fp x : Rat), fn := (fn x : Rat) })))) := by
+  have hav : avgAction (some "macro") = .meanAxis (-1) := by decide
+  simp [deriveMetric, hf, cells_map, bind, Except.bind, hav, Arr.map, meanAxis, Functor.map, Except.map,
+    List.map_map, Function.comp_def]
+
+/-- `meanList` is the arithmetic mean -/
+theorem C07_classification_meanList (xs : List Rat) (h : xs ≠ []) :
+    meanList xs = some (xs.sum / (xs.length : Rat)) := by
+  simp [meanList, h]
+
+/-- **samples**: the reported value is `Σ per-example scores / #examples` (0 for no example:
+`safe_divide`) -/
+theorem C07_classification_samples_mean (total : Rat) (count : Nat) :
+    meanStateResult (total, count) = if count = 0 then 0 else total / (count : Rat) := rfl
+
+end averaging
+
+/-! ## E. the one-shot function API is the accumulator API -/
+
+section function_api
+open MlModel.Agg.Confusion
+
+/-- `precision(y_true, y_pred, …)` and friends return exactly what the accumulator
+(`create_state` → `update_state` → `get_result`) returns for the same configuration, whenever
+`verify_input` lets the call through; otherwise they raise `ValueError` before anything is built
+(binary input + binary average with a `pos_label` that is no label of the data / vocabulary) -/
+theorem C07_classification_function_api (sqrt : Rat → Rat) (r : RawCfg) (b : Batch) :
+    (verifyInput r b = .ok () →
+      oneShot sqrt r b = (constructWrapper r >>= fun c => accumulate sqrt c b)) ∧
+    (verifyInput r b ≠ .ok () → oneShot sqrt r b = .error .value) := by
+  constructor
+  · intro h; simp [oneShot, h, bind, Except.bind]
+  · intro h
+    have hcases : verifyInput r b = .ok () ∨ verifyInput r b = .error .value := by
+      unfold verifyInput
+      split
+      · split <;> simp
+      · exact Or.inl rfl
+    rcases hcases with h' | h'
+    · exact absurd h' h
+    · simp [oneShot, h', bind, Except.bind]
+
+end function_api
 
 end MlModel.C07
